@@ -175,6 +175,8 @@ Theorem introspect_fields_confined S p fuel t f :
 Proof.
   intros Ht Hf. unfold seen_types in Ht. apply in_flat_map in Ht. destruct Ht as [t0 [Hin0 Ht]].
   destruct (lookup (it_name t0) (filter_schema fuel (vsrc_of S) p)) as [fs|] eqn:El; [|destruct Ht].
-  destruct Ht as [Ht|[]]. subst t. cbn [it_name it_fields] in *. apply filter_In in Hf. destruct Hf as [_ Hm].
-  apply (view_sound (vsrc_of S) p fuel (std_roots_vsrc S)). unfold view_visible. rewrite El. exact Hm.
+  destruct Ht as [Ht|[]]. subst t. cbn [it_name it_fields] in *. apply in_flat_map in Hf. destruct Hf as [n [Hn Hf]].
+  destruct (find (fun f0 => String.eqb (if_name f0) n) (it_fields t0)) as [f1|] eqn:Efind; [|destruct Hf].
+  destruct Hf as [Hf|[]]. subst f1. apply find_some in Efind. destruct Efind as [_ Heq]. apply String.eqb_eq in Heq.
+  apply (view_sound (vsrc_of S) p fuel (std_roots_vsrc S)). unfold view_visible. rewrite El. rewrite Heq. apply mem_in. exact Hn.
 Qed.
